@@ -448,6 +448,53 @@ def wl_helpers(ctx, idx, rng):
             ctx.violation("no_mutation", f"real_to_complex(axis={ax}) modified its argument: {d}", None, {"op": "real_to_complex", "what": "helper_buffer"})
 
 
+def _mag(x):
+    return np.abs(x)
+
+
+def wl_containers(ctx, idx, rng):
+    """Caller-held container arguments (dict of Dask options, list of chunk sizes, tuples of signals) are left as given."""
+    clsname = gen.pick(rng, ["Signal", "RadioSignal", "DualPolarizationSignal"])
+    n = int(gen.pick(rng, [8, 16, 33]))
+    sig, desc = gen.make_signal(rng, clsname, n, dask=True, dtype=gen.pick(rng, [np.complex64, np.complex128]) if clsname != "RadioSignal" else np.float32)
+    kind = idx % 3
+    ctx.describe_case(dict(desc, container_kind=kind))
+    if kind == 0:
+        opts = gen.pick(rng, [{}, {"meta": np.array((), dtype=np.float64)}, {"name": "mag-%d" % idx}])
+        before = snapshot.snap(opts)
+        keys0 = sorted(opts)
+        tr = pb.signal_transform(_mag)
+        kw = {"signal_type": pb.Signal}
+        for s_ in (sig, type(sig).like(sig, sig.data.astype(np.complex128 if sig.dtype.kind == "c" else np.float64))):
+            try:
+                tr(s_, dask_kwargs=opts, **kw)
+            except Exception:
+                pass
+        what, arg, after_keys = "signal_transform(dask_kwargs=<dict>)", opts, sorted(opts)
+        bad = snapshot.describe_diff(before, snapshot.snap(opts), "dask_kwargs") or (None if keys0 == after_keys else f"keys {keys0} -> {after_keys}")
+    elif kind == 1:
+        chunks = [int(rng.integers(1, n + 1))] + [-1] * (int(rng.integers(0, sig.ndim - 1)) if sig.ndim > 1 else 0)
+        before = list(chunks)
+        try:
+            sig.rechunk(chunks)
+        except Exception:
+            pass
+        what, bad = "rechunk(<list>)", (None if chunks == before else f"{before} -> {chunks}")
+    else:
+        c = int(rng.integers(1, n))
+        parts = [sig[:c], sig[c:]]
+        ids = [id(p_) for p_ in parts]
+        try:
+            pb.concatenate(parts)
+        except Exception:
+            pass
+        what, bad = "concatenate(<list>)", (None if [id(p_) for p_ in parts] == ids and len(parts) == 2 else "the list of pieces was changed")
+    ctx.count("oracle[container_args_unchanged]")
+    if bad:
+        ctx.violation("no_mutation", f"{what} modified the container it was given: {bad}", None, {"what": "container_argument", "op": what})
+    ctx.bucket("containers", kind, clsname)
+
+
 def wl_readers(ctx, idx, rng):
     """Reader calls do not modify the reader's attributes or the arguments."""
     import os
@@ -489,7 +536,7 @@ def workloads(ctx):
     q = ctx.tier == "quick"
     return [("R", 1, wl_R), ("ops", 450 if q else 18000, wl_ops), ("inplace", 90 if q else 1800, wl_inplace),
             ("failpoints", 18 if q else 360, wl_failpoints), ("readers", 12 if q else 120, wl_readers),
-            ("helpers", 1120 if q else 14000, wl_helpers)]
+            ("helpers", 1120 if q else 14000, wl_helpers), ("containers", 120 if q else 1800, wl_containers)]
 
 
 def setup(ctx):
